@@ -21,7 +21,8 @@ Spec == Init /\ [][Next]_vars
 Has(r, f) == f \in DOMAIN r
 
 TextsOf(c) ==
-  IF Has(c, "texts") THEN c.texts
+  IF Has(c, "accept") /\ ~c.accept THEN <<>>          \* ill-typed by the specification: nothing to evaluate
+  ELSE IF Has(c, "texts") THEN c.texts
   ELSE SetToSeq(StringsUpTo({c.sigma[j] : j \in 1..Len(c.sigma)}, c.lo, c.hi))
 
 TransTable(c) ==
@@ -45,7 +46,20 @@ CmdResult(c, cmd, t) ==
               undef |-> \E j \in 1..Len(E.ms) : ~R[j].ok,
               noret |-> \E j \in 1..Len(E.ms) : R[j].noreturn]
 
+(* process code whose termination the bounded evaluator cannot establish is *)
+(* not run (C09/C10/C12 speak about terminating process code only)          *)
+ProcessCode(c) ==
+  (IF Has(c, "trans") THEN {c.trans[j].stmts : j \in 1..Len(c.trans)} ELSE {})
+    \cup (IF Has(c, "defs") THEN {c.defs[j].pred : j \in 1..Len(c.defs)} ELSE {})
+Gate(c, t) ==
+  ~Has(c, "ctx") \/
+    \A ss \in ProcessCode(c) : \A j \in 1..Len(t) :
+       RunProcess(ss, PredEnv(<<t[j]>>)).st # "fuel"
+
+SkippedResult(t) == [t |-> t, ms |-> <<>>, firm |-> FALSE, undef |-> FALSE, noret |-> FALSE, skip |-> TRUE]
+
 TextResult(c, t) ==
+  IF ~Gate(c, t) THEN SkippedResult(t) ELSE
   LET rs == [j \in 1..Len(c.cmds) |-> CmdResult(c, c.cmds[j], t)]
   IN [t     |-> t,
       ms    |-> Cat([j \in 1..Len(c.cmds) |-> rs[j].ms]),
